@@ -582,11 +582,11 @@ Definition op_has_clshelp (k : opk) : bool :=
   match k with PArgs argv => existsb tok_is_clshelp argv | _ => false end.
 
 (* 0 = inside the guard; 1 = a print_config request is pending on the target parser;
-   2 = the call names the key print_shtab on a parser that has acquired --print_shtab;
-   3 = a class help is requested after a Callable-typed class help wrote the class-level dict *)
+   2 = the call names the key print_shtab on a parser that has acquired --print_shtab (and the key is read);
+   3 = a class help is requested after a Callable-typed class help wrote the class-level dict (and it is read) *)
 Definition guard_class (fx : fixes) (s : state) (o : op) : N :=
   if negb (is_pnone (ps_pending (get_ps s (op_p o)))) then 1%N
   else if negb (fx_sh fx) && ps_shtab (get_ps s (op_p o)) && op_mentions_shtab (op_k o) then 2%N
-  else if st_help_skip s && op_has_clshelp (op_k o) then 3%N
+  else if negb (fx_hs fx) && st_help_skip s && op_has_clshelp (op_k o) then 3%N
   else 0%N.
 Definition in_guard (fx : fixes) (s : state) (o : op) : bool := N.eqb (guard_class fx s o) 0.
